@@ -12,8 +12,10 @@ import (
 	"fmt"
 	"os"
 	"runtime/debug"
+	"runtime/pprof"
 	"strings"
 	"sync"
+	"sync/atomic"
 
 	"verif/core"
 )
@@ -327,6 +329,20 @@ func (rp *reporter) report(c *Chain, fs []failure) {
 	rp.r.Violation(v.sig, v.what, v.c)
 }
 
+// known: a failure of this class was already shrunk and confirmed; count it without further runs.
+func (rp *reporter) known(c *Chain, fs []failure) bool {
+	if fs[0].kind == "harness" {
+		return false
+	}
+	rp.mu.Lock()
+	v := rp.memo[coarseKey(c, kindsOf(fs))]
+	rp.mu.Unlock()
+	if v != nil {
+		rp.r.Violation(v.sig, v.what, v.c)
+	}
+	return v != nil
+}
+
 // confirm re-runs the minimal chain on fresh runtimes.
 func confirm(min *Chain, origKinds string) *verdict {
 	first, _ := runChain(min)
@@ -370,6 +386,12 @@ func (w *worker) do(c *Chain) outcome {
 	if len(fs) == 0 {
 		w.en = en
 		if en == nil {
+			if verbose {
+				discards.Add(1)
+				discardMu.Lock()
+				discardWhy[out.key]++
+				discardMu.Unlock()
+			}
 			w.hist = nil
 		} else {
 			w.hist = append(w.hist, c)
@@ -378,6 +400,9 @@ func (w *worker) do(c *Chain) outcome {
 	}
 	hist := w.hist
 	w.en, w.hist = nil, nil
+	if w.rp.known(c, fs) {
+		return out
+	}
 	if reused {
 		fresh, _ := runChain(c)
 		if len(fresh) == 0 {
@@ -417,6 +442,9 @@ func runWithHistory(hist []*Chain, c *Chain) []failure {
 // ---------- run ----------
 
 var verbose = os.Getenv("C14_VERBOSE") != ""
+var discards atomic.Int64
+var discardMu sync.Mutex
+var discardWhy = map[string]int{}
 
 func runShape(r *core.Run, rp *reporter, s *shape) bool {
 	var evals, nontriv, skipped int64
@@ -457,10 +485,20 @@ func runShape(r *core.Run, rp *reporter, s *shape) bool {
 
 func run(r *core.Run) {
 	// tiny live heap, high allocation rate: the default GC pacing makes the collector run continuously
-	defer debug.SetGCPercent(debug.SetGCPercent(800))
+	gcp := 200
+	if v := os.Getenv("C14_GOGC"); v != "" {
+		fmt.Sscan(v, &gcp)
+	}
+	defer debug.SetGCPercent(debug.SetGCPercent(gcp))
 	r.Assume("every case runs on a fresh runtime with SetMaxCallStackSize(120); natives follow the documented idioms (panic with *Exception / Value / uncatchable error, return error, otherwise panic(NewGoError(err)))")
 	r.Assume("the stack-position oracle applies to script throws of non-Error values (throw site, or the outermost rethrow site) and to Error objects created at the throw site; for values raised by natives only identity is judged")
 	r.Assume("after a foreign (non-goja) Go panic reached the host the runtime's state is not judged: the property promises nothing about it")
+	if pf := os.Getenv("C14_PROF"); pf != "" {
+		if f, err := os.Create(pf); err == nil {
+			pprof.StartCPUProfile(f)
+			defer pprof.StopCPUProfile()
+		}
+	}
 	rp := &reporter{r: r, memo: map[string]*verdict{}}
 	bounds := map[string]interface{}{}
 	complete := true
@@ -522,6 +560,9 @@ outer:
 			}
 		}
 	}
+	if verbose {
+		fmt.Fprintln(os.Stderr, "discarded runtimes without failure:", discards.Load(), discardWhy)
+	}
 	r.Set("bounds_completed", bounds)
 	r.Exhaustive(complete)
 }
@@ -557,4 +598,11 @@ func replay(r *core.Run, raw json.RawMessage) {
 	}
 }
 
-var regressionCorpus = []CaseJSON{}
+// regressionCorpus: the minimal failing inputs of the findings listed in findings.d/C14.jsonl (run first).
+var regressionCorpus = []CaseJSON{
+	{Host: "exportfn_err", Frames: []string{"js:none"}, Payload: "{value:null}"},
+	{Host: "exportfn_err", Frames: []string{"js:none"}, Payload: "{get value(){throw}}"},
+	// the same two defects seen from inside a chain (a native calls the ExportTo'd func, the panic crosses script frames)
+	{Host: "run", Frames: []string{"js:catch+finally", "go:fcall>exportfn_err", "js:none"}, Payload: "{value:null}"},
+	{Host: "callable", Frames: []string{"js:catch", "go:reflerr>exportfn_err", "js:finally"}, Payload: "{get value(){throw}}"},
+}
